@@ -144,6 +144,11 @@ pub fn sandbox(dir: &Path) -> Sandbox {
 /// canonical RRQ from a fresh socket; must be served with the right DATA 1 (and DATA 2)
 pub fn probe_ok(srv: &mut Server, probe: &[u8]) -> Result<(), String> {
     let c = Client::new();
+    probe_with(srv, probe, &c)
+}
+
+/// the canonical RRQ from a given endpoint (possibly one that has talked to the server before)
+pub fn probe_with(srv: &mut Server, probe: &[u8], c: &Client) -> Result<(), String> {
     let rrq = refcodec::encode(&RPacket::Rrq {
         filename: "probe.bin".into(),
         mode: "octet".into(),
@@ -180,6 +185,10 @@ pub fn probe_ok(srv: &mut Server, probe: &[u8]) -> Result<(), String> {
                     }
                     return Err("DATA 1 was correct but DATA 2 never came after ACK 1".into());
                 }
+                RDec::Ok(RPacket::Data { .. }) | RDec::Ok(RPacket::Oack(_)) | RDec::Ok(RPacket::Ack(_)) | RDec::Ok(RPacket::Error { .. }) => {
+                    // leftovers of transfers this endpoint started during the sequence
+                    last = "only datagrams of older transfers arrived".to_string();
+                }
                 other => last = format!("unexpected reply {:?}", other),
             }
         }
@@ -207,7 +216,12 @@ fn run_case(dir: &Path, c: &Case) -> Result<(), (String, String)> {
         let b = if b.len() > 65507 { b[..65507].to_vec() } else { b };
         clients[d.src as usize % 4].send(&b, srv.addr);
     }
-    let res = probe_ok(&mut srv, &sb.probe);
+    let mut res = probe_ok(&mut srv, &sb.probe);
+    if res.is_ok() {
+        // and from an endpoint that took part in the sequence: a client that was served (or refused) before must be served again
+        let _ = clients[0].drain(Duration::from_millis(2));
+        res = probe_with(&mut srv, &sb.probe, &clients[0]).map_err(|e| format!("(probe from source 0 of the sequence) {}", e));
+    }
     let status = srv.exit_status();
     let tail = srv.stderr_tail();
     drop(srv);
@@ -308,7 +322,7 @@ fn sweep() -> Vec<Case> {
 }
 
 pub fn run(ctx: &Ctx) {
-    ctx.set_rule("per case one fresh real tftpd process in {multi-port, single-port} x {read-only, writable} receives a generated sequence of 1-29 datagrams from up to 4 source sockets: requests with recognised option names in any case and boundary values (0,1,7,8,65464,65465,2^16,2^31,2^32,2^40,2^63,2^64-1,2^64,-1,+5,1e3,empty,400 digits), structure-aware mutations of valid packets, raw bytes, every opcode 0..8/0xFFFF with tails of 0..65505 bytes, non-request packets; plus a deterministic sweep option x boundary value x RRQ/WRQ x mode. Oracle: afterwards a canonical RRQ from a fresh socket (retransmitted up to 5 times like a real client) is served with the correct DATA 1 and DATA 2 and the process is still running; failures are re-run once in isolation before they are reported. Non-trivial = the sequence contains a request with a recognised option or an undecodable datagram; distinct = distinct sequences.");
+    ctx.set_rule("per case one fresh real tftpd process in {multi-port, single-port} x {read-only, writable} receives a generated sequence of 1-29 datagrams from up to 4 source sockets: requests with recognised option names in any case and boundary values (0,1,7,8,65464,65465,2^16,2^31,2^32,2^40,2^63,2^64-1,2^64,-1,+5,1e3,empty,400 digits), structure-aware mutations of valid packets, raw bytes, every opcode 0..8/0xFFFF with tails of 0..65505 bytes, non-request packets; plus a deterministic sweep option x boundary value x RRQ/WRQ x mode. Oracle: afterwards a canonical RRQ from a fresh socket and then from one of the sequence's own source sockets (retransmitted up to 5 times like a real client) is served with the correct DATA 1 and DATA 2 and the process is still running; failures are re-run once in isolation before they are reported. Non-trivial = the sequence contains a request with a recognised option or an undecodable datagram; distinct = distinct sequences.");
     ctx.assume("resource exhaustion by volume (thousands of simultaneous requests) is outside the generated domain: at most 29 datagrams per fresh server");
     ctx.assume("datagrams the kernel drops because the listener's socket buffer is full simply do not belong to the delivered sequence");
     let dirs = DirPool::new(ctx, "c05");
